@@ -226,7 +226,10 @@ func verifyFunction(L *Loaded, fn *ssa.Function, fs *FuncSpec) (res *FuncResult)
 		// implicit run-time panics (bounds, nil, ...) must be unreachable; declared panics are the
 		// explicit panic statements and the panics of callees
 		implicit := !strings.HasPrefix(e.What, "panic")
-		if fs.Flags["maypanic"] && !implicit {
+		if fs.Flags["mayfault"] && implicit {
+			// the function rejects a misuse by faulting (nil column, index out of range): the fault is
+			// an accepted exit; what must hold is stated for the normal exits
+		} else if fs.Flags["maypanic"] && !implicit {
 			// the function rejects bad arguments by panicking; when it does so is not specified here
 		} else if hasPanics && !implicit {
 			vc.oblige("panics=>", fmt.Sprintf("%s#panics=>[%s]", fname, what), e.Cond, P, e.Pos)
